@@ -59,8 +59,8 @@ theorem lower_mask (w : Str) (hw : ∀ c ∈ w, c ∈ ['t','r','u','e','y','s','
   lower_mask_word w (fun c hc => letters_ok c (hw c hc)) m
 
 /-- round trip for one row of a good shape -/
-theorem roundtrip_exact (tb : Table) (ht : GoodTable tb) (row : TypeRow) (hr : goodRow row = true)
-    (hf : fo.RoundTrips) (v : Val F) (hv : exactDomain row.ty v = true) :
+theorem roundtrip_exact_pt (tb : Table) (ht : GoodTable tb) (row : TypeRow) (hr : goodRow row = true)
+    (v : Val F) (hf : ∀ f, v = .float f → fo.parse (fo.repr f) = some f) (hv : exactDomain row.ty v = true) :
     coerceUpnp fo row v = .ok (wire fo v) ∧ coercePython fo tb row (wire fo v) = .ok v := by
   obtain ⟨name, ty, inK, outK, tz⟩ := row
   simp only [goodRow, goodKinds, List.contains_cons, List.contains_nil, Bool.or_false, Bool.or_eq_true, beq_iff_eq,
@@ -78,7 +78,7 @@ theorem roundtrip_exact (tb : Table) (ht : GoodTable tb) (row : TypeRow) (hr : g
   · -- float
     cases v <;> simp [Val.exactType] at hty
     rename_i f
-    exact ⟨by simp [coerceUpnp, pyStr, wire], by simp [coercePython, wire, hf f]⟩
+    exact ⟨by simp [coerceUpnp, pyStr, wire], by simp [coercePython, wire, hf f rfl]⟩
   · -- str
     cases v <;> simp [Val.exactType] at hty
     exact ⟨by simp [coerceUpnp, pyStr, wire], by simp [coercePython, wire]⟩
@@ -121,6 +121,12 @@ theorem roundtrip_exact (tb : Table) (ht : GoodTable tb) (row : TypeRow) (hr : g
         rw [isoOff_eq]
         exact parse_isoTime_off false true t x htv ho
 
+/-- round trip for one row of a good shape (global float assumption; the pointwise form is `roundtrip_exact_pt`) -/
+theorem roundtrip_exact (tb : Table) (ht : GoodTable tb) (row : TypeRow) (hr : goodRow row = true)
+    (hf : fo.RoundTrips) (v : Val F) (hv : exactDomain row.ty v = true) :
+    coerceUpnp fo row v = .ok (wire fo v) ∧ coercePython fo tb row (wire fo v) = .ok v :=
+  roundtrip_exact_pt fo tb ht row hr v (fun f _ => hf f) hv
+
 theorem offPlainStr_eq (o : Int) : offPlainStr o = offText false false o := by
   simp [offPlainStr, offText]
 
@@ -134,14 +140,15 @@ theorem good_temporal_in (row : TypeRow) (hr : goodRow row = true)
     first | rfl | (rcases h with h | h <;> cases h)
 
 /-- every accepted spelling of an in-domain value is read back as that value -/
-theorem spelling_exact (tb : Table) (ht : GoodTable tb) (row : TypeRow) (hr : goodRow row = true)
-    (hf : fo.RoundTrips) (sp : Spelling) (v : Val F) (s : Str) (hv : exactDomain row.ty v = true)
+theorem spelling_exact_pt (tb : Table) (ht : GoodTable tb) (row : TypeRow) (hr : goodRow row = true)
+    (sp : Spelling) (v : Val F) (hf : ∀ f, v = .float f → fo.parse (fo.repr f) = some f) (s : Str)
+    (hv : exactDomain row.ty v = true)
     (hs : spell fo sp v = some s) : coercePython fo tb row s = .ok v := by
   cases sp with
   | canon =>
     simp only [spell, Option.some.injEq] at hs
     subst hs
-    exact (roundtrip_exact fo tb ht row hr hf v hv).2
+    exact (roundtrip_exact_pt fo tb ht row hr v hf hv).2
   | boolWord k m =>
     obtain ⟨name, ty, inK, outK, tz⟩ := row
     cases v <;> simp [spell] at hs
@@ -244,6 +251,11 @@ theorem spelling_exact (tb : Table) (ht : GoodTable tb) (row : TypeRow) (hr : go
     simp only [coercePython, good_temporal_in row hr (Or.inl hty), ht.matchers, ht.guard]
     simpa using parse_isoDateTime_zulu (F := F) up d t hd htv
 
+theorem spelling_exact (tb : Table) (ht : GoodTable tb) (row : TypeRow) (hr : goodRow row = true)
+    (hf : fo.RoundTrips) (sp : Spelling) (v : Val F) (s : Str) (hv : exactDomain row.ty v = true)
+    (hs : spell fo sp v = some s) : coercePython fo tb row s = .ok v :=
+  spelling_exact_pt fo tb ht row hr sp v (fun f _ => hf f) s hv hs
+
 /-! ### the full round-trip domain: exact class, or a `bool` under an integer type -/
 
 theorem rtDomain_cases (ty : PyType) (v : Val F) (h : rtDomain ty v = true) :
@@ -292,6 +304,18 @@ theorem roundtrip_row (tb : Table) (ht : GoodTable tb) (row : TypeRow) (hr : goo
     simp only [wire, expectBack, hty]
     exact this
 
+/-- the same with the float assumption only for the float at hand: for a value that is not a float
+    NO assumption about floats is needed -/
+theorem roundtrip_row_pt (tb : Table) (ht : GoodTable tb) (row : TypeRow) (hr : goodRow row = true)
+    (v : Val F) (hf : ∀ f, v = .float f → fo.parse (fo.repr f) = some f) (hv : rtDomain row.ty v = true) :
+    coerceUpnp fo row v = .ok (wire fo v) ∧ coercePython fo tb row (wire fo v) = .ok (expectBack row.ty v) := by
+  rcases rtDomain_cases row.ty v hv with he | ⟨hty, b, rfl⟩
+  · rw [expectBack_exact row.ty v (exactDomain_exact row.ty v he)]
+    exact roundtrip_exact_pt fo tb ht row hr v hf he
+  · have := roundtrip_bool_int fo tb row hr hty b
+    simp only [wire, expectBack, hty]
+    exact this
+
 /-- every accepted spelling of an in-domain value is read back as that value -/
 theorem spelling_row (tb : Table) (ht : GoodTable tb) (row : TypeRow) (hr : goodRow row = true)
     (hf : fo.RoundTrips) (sp : Spelling) (v : Val F) (s : Str) (hv : spellDomain row.ty sp v = true)
@@ -305,6 +329,22 @@ theorem spelling_row (tb : Table) (ht : GoodTable tb) (row : TypeRow) (hr : good
   · rw [expectBack_exact row.ty v hex]
     rcases rtDomain_cases row.ty v hd with he | ⟨hty, b, rfl⟩
     · exact spelling_exact fo tb ht row hr hf sp v s he hs
+    · simp [Val.exactType, hty] at hex
+
+/-- spellings with the float assumption only for the float at hand -/
+theorem spelling_row_pt (tb : Table) (ht : GoodTable tb) (row : TypeRow) (hr : goodRow row = true)
+    (sp : Spelling) (v : Val F) (hf : ∀ f, v = .float f → fo.parse (fo.repr f) = some f) (s : Str)
+    (hv : spellDomain row.ty sp v = true) (hs : spell fo sp v = some s) :
+    coercePython fo tb row s = .ok (expectBack row.ty v) := by
+  simp only [spellDomain, Bool.and_eq_true, Bool.or_eq_true, beq_iff_eq] at hv
+  obtain ⟨hd, hsp⟩ := hv
+  rcases hsp with rfl | hex
+  · simp only [spell, Option.some.injEq] at hs
+    subst hs
+    exact (roundtrip_row_pt fo tb ht row hr v hf hd).2
+  · rw [expectBack_exact row.ty v hex]
+    rcases rtDomain_cases row.ty v hd with he | ⟨hty, b, rfl⟩
+    · exact spelling_exact_pt fo tb ht row hr sp v hf s he hs
     · simp [Val.exactType, hty] at hex
 
 end
